@@ -130,6 +130,11 @@ fn alphabet(old: &Value) -> Vec<(Value, bool)> {
             (json!(1e-3), true),
             (json!(0.5), true),
             (json!(0.999), true),
+            // (round 13, after C19k) the "neutral" values a serialiser is tempted to treat as a
+            // sentinel: a factor of exactly one, two, minus one
+            (json!(1.0), true),
+            (json!(2.0), true),
+            (json!(-1.0), true),
             (json!(1.5), true),
             (json!(1.23456789012345e15), true),
             (json!(5e-324), true),
@@ -439,7 +444,7 @@ pub fn run(tier: Tier, _replay: Option<String>) -> i32 {
         "C19",
         tier,
         "exploration",
-        "six presets x {default; every leaf of the settings JSON substituted by every value of its type alphabet (bools, ints {0,1,2,7,1000,2^32+16,2^53+1,0x9E3779B97F4A7C15}, floats {0,1e-3,0.5,0.999,1.5,1.2e15,5e-324,-2.5}, null<->number, every enum variant incl. Fixed(x)); thorough: all pairs}; oracles: JSON fixed point and field identity, Debug field list subset of JSON keys, bit-identical chains (30 draws NUTS / 10 MCLMC, 200k-evaluation watchdog) from round-tripped settings. distinct = (preset, field) classes",
+        "six presets x {default; every leaf of the settings JSON substituted by every value of its type alphabet (bools, ints {0,1,2,7,1000,2^32+16,2^53+1,0x9E3779B97F4A7C15}, floats {0,1e-3,0.5,0.999,1,2,-1,1.5,1.2e15,5e-324,-2.5}, null<->number, every enum variant incl. Fixed(x)); thorough: all pairs}; oracles: JSON fixed point and field identity, Debug field list subset of JSON keys, bit-identical chains (30 draws NUTS / 10 MCLMC, 200k-evaluation watchdog) from round-tripped settings. distinct = (preset, field) classes",
     );
     report.assume("non-finite floats are outside the quantifier (JSON has no representation); substitutions whose JSON type does not fit the field are skipped and counted");
     if let Ok(path) = std::env::var("VERIF_C19_DUMP_TEMPLATE") {
